@@ -25,13 +25,13 @@ SPEC = dict(
              'DAG with the one the library holds; the emitter model is tied to the code byte-for-byte on the same inputs.',
         level_note='Trusted: Lean kernel (propext, Classical.choice, Quot.sound); Spec/Boc.lean as the transcription of boc.tlb + reference-node checks; Model/BocEmit.lean as a hand '
                    'transcription of Cell.order/serialize/to_boc tied to the code only by sampled byte-for-byte correspondence (all generated DAGs x 6 option sets, incl. 255/256/257 cells, '
-                   'payload 127..65536 bytes, depth-1023 chains, exotic cells; thorough: 65535/65536/70000 cells); SHA-256 is a parameter in the theorems; the Python harness.',
+                   'payload 127..65536 bytes, depth-1023 chains, exotic cells; thorough: 65535/65536/65537/70000 cells); SHA-256 is a parameter in the theorems; the Python harness.',
         technique='Lean 4 proof (hand model, independent strict-reader spec) + the strict readers run on the library\'s real output + byte-for-byte correspondence',
     ),
     design_ref='DESIGN.md §6 C04',
     rule='DAGs: hand cases, random ordinary DAGs with content duplicates, connected DAGs 2..700 cells, twin sub-DAGs, exotic trees, lattices (maximal sharing), '
          'chains to depth 1023, exactly 127/128/254..257 cells, payload exactly 126..129/254..257/32767/32768/65535/65536 bytes, one 3000-cell DAG '
-         '(thorough: 65535/65536/70000 cells); each x 6 option sets; distinct = distinct (dag, root, option set); non-trivial = more than one cell or non-empty data',
+         '(thorough: 65535/65536/65537/70000 cells); each x 6 option sets; distinct = distinct (dag, root, option set); non-trivial = more than one cell or non-empty data',
     trusted_base=['Spec/Boc.lean transcribes boc.tlb serialized_boc#b5ee9c72 + the reference node\'s checks (independent of the library\'s parser)',
                   'Model/BocEmit.lean mirrors Cell.order / Cell.serialize / Cell.to_boc by hand',
                   'harness/boc_strict.py: the same strict reader in Python (replays do not depend on the driver)',
@@ -105,8 +105,17 @@ def check_case(ctx, batch, tag, nodes, root, big=False, opts=D.OPTS):
         finp = dict(inp, opts=list(o), boc=b.hex() if len(b) < 3000 else f'<{len(b)} bytes>')
         # (a1) independent Python strict reader on the library's bytes
         try:
-            lst = S.strict_parse(b)
-            why = S.compare(lst, exp, rootc.hash)
+            if big and listing0 is not None:
+                # big bags: byte-level layer per option set; the semantic layer depends only on the records (same for all option sets)
+                lst = S.strict_parse(b, semantic=False)
+                same = ([(r['d1'], r['bits'], r['refs']) for r in lst['recs']] == [(r['d1'], r['bits'], r['refs']) for r in listing0['recs']]
+                        and lst['roots'] == listing0['roots'])
+                why = None if same else 'records differ between option sets'
+                for r, r0 in zip(lst['recs'], listing0['recs']):
+                    r['hash'] = r0['hash']
+            else:
+                lst = S.strict_parse(b)
+                why = S.compare(lst, exp, rootc.hash)
             ctx.count(f'size_bytes:{lst["size"]}')
             ctx.count(f'off_bytes:{lst["off"]}:cache={int(o[2])}')
         except S.Reject as e:
